@@ -32,6 +32,17 @@ type TSM struct {
 	// (as go-configfs-tsm's fake shows it), 2 "-1\n".  IndexNoNewline: a bound index reads "2" instead of "2\n".
 	UnboundIndex   int
 	IndexNoNewline bool
+	// Latency, if set, is the simulated time an operation takes; slept only while InBubble (fake clock).
+	Latency  func(kind, path string) time.Duration
+	InBubble bool
+}
+
+func (t *TSM) wait(kind, path string) {
+	if t.Latency != nil && t.InBubble {
+		if d := t.Latency(kind, path); d > 0 {
+			time.Sleep(d)
+		}
+	}
 }
 
 // TSMEntry is one directory under rtmrs/.
@@ -115,6 +126,7 @@ func split(p string) (string, string, bool) {
 
 // MkdirTemp implements configfsi.Client.
 func (t *TSM) MkdirTemp(dir, pattern string) (string, error) {
+	t.wait("mkdir", dir)
 	if t.fault("mkdir") {
 		t.rec("mkdir", dir+"/"+pattern, nil, errInjected)
 		return "", errInjected
@@ -150,6 +162,7 @@ func (i tsmInfo) Sys() any           { return nil }
 
 // ReadDir implements configfsi.Client.
 func (t *TSM) ReadDir(dirname string) ([]os.DirEntry, error) {
+	t.wait("readdir", dirname)
 	if t.fault("readdir") {
 		t.rec("readdir", dirname, nil, errInjected)
 		return nil, errInjected
@@ -174,6 +187,7 @@ func (t *TSM) ReadDir(dirname string) ([]os.DirEntry, error) {
 
 // ReadFile implements configfsi.Client.
 func (t *TSM) ReadFile(name string) ([]byte, error) {
+	t.wait("read", name)
 	if t.fault("read") {
 		t.rec("read", name, nil, errInjected)
 		return nil, errInjected
@@ -221,6 +235,7 @@ func (t *TSM) ReadFile(name string) ([]byte, error) {
 
 // WriteFile implements configfsi.Client.
 func (t *TSM) WriteFile(name string, contents []byte) error {
+	t.wait("write", name)
 	if t.fault("write") {
 		t.rec("write", name, contents, errInjected)
 		return errInjected
